@@ -194,6 +194,8 @@ def gen_parseval(draw, tier="quick", classes=None):
         dims = [d for d in gens.valid_dims(spec["cls"]) if d != spec["dim"]]
         if dims:
             case["dim0"] = draw(st.sampled_from(dims))
+    if spec["cls"] in gens.HANKEL_SPECTRUM and draw(st.sampled_from([True, False, False])):
+        case["other_hankel"] = draw(st.sampled_from([{"N": 12, "h": 0.1}, {"N": 30, "h": 0.05}, {"a": 0, "b": 1}]))
     return case
 
 
@@ -264,6 +266,9 @@ def _ctx(case):
     c.opt = spec.get("opt", {})
     c.tags = dict(gens.spec_tags(spec))
     c.analytic = c.cls in ANALYTIC
+    if case.get("other_hankel"):
+        # another model with its own (coarse) Hankel settings exists in the process: settings are per model
+        build_model({"cls": "Rational", "dim": 3, "hankel_kw": dict(case["other_hankel"])})
     dim0 = case.get("dim0")
     if dim0:
         c.model = lib(
